@@ -26,7 +26,9 @@ RULE = ("cases: every type expression with <=3 wrappers over the 5 specified sca
         "in a list/object literal}; non-trivial = distinct (registry, argument type, default, route, value) whose value is not a "
         "bare scalar-at-scalar success (i.e. involves null, a wrapper, an enum, an input object, a boundary or a rejection)")
 ASSUMPTIONS = [
-    "enum internal values are not None and python names are distinct within one input object / argument list",
+    "the statement presupposes what the theorems take as CHECKED hypotheses (RegOK / ArgsOK): enum internal values are not None and python names "
+    "are distinct within one input object / argument list; the model follows the code's behaviour on colliding python names (stream "
+    "`collision`, correspondence only) and Props/C07_examples.lean has the witnesses that neither hypothesis can be dropped",
     "JSON integers stay below 2^200 (float(int) OverflowError is out of scope); non-finite floats (json.loads accepts Infinity/NaN) ARE generated: "
     "the Float scalar refuses them on both routes (fix X2), `int(inf)` inside coerce_int escapes as OverflowError (outcome class `internal`); "
     "IntValue texts are canonical decimal (no `-0`)",
@@ -261,8 +263,11 @@ class World:
                     return out
                 self.types[t["name"]] = InputObjectType(t["name"], mk)
 
+        self.seen_calls = []
+
         def resolver(root, ctx, info, **kw):
             self.seen.append(kw)
+            self.seen_calls.append((info.path[-1], kw))
             return "ok"
 
         def mkargs(spec):
@@ -486,6 +491,19 @@ def build_cases(reg, types, rng, per_type, depth):
 OMIT = ("<omitted>",)
 
 
+def loosen(t):
+    """the same type expression with every non-null below the top dropped"""
+    def strip_all(u):
+        if u[0] == "nonNull":
+            return strip_all(u[1])
+        if u[0] == "list":
+            return L(strip_all(u[1]))
+        return u
+    if t[0] == "nonNull":
+        return NN(strip_all(t[1]))
+    return strip_all(t)
+
+
 def make_group(reg, si, a, t, j, lit0, j0):
     xn = a["name"]
     g = {"spec": si, "ty": t, "j": j, "j0": j0, "arg": a, "cases": {}}
@@ -509,6 +527,11 @@ def make_group(reg, si, a, t, j, lit0, j0):
     if t[0] == "nonNull" and a["default"] is not None:
         # `$v: T` at a `T! = default` position is allowed by validation (location default)
         g["cases"]["var-nullable-locdefault"] = dict(base, vardefs=[("v", nullable(t), None)], args=[(xn, ("var", "v"))], variables=[("v", j)])
+    # a variable of a LOOSER type (inner non-nulls dropped): the validator must refuse the usage; if it does not, the
+    # resolver can receive None inside a list of non-null items (caught by the Conforms oracle)
+    lo = loosen(t)
+    if lo != t:
+        g["cases"]["var-looser-type"] = dict(base, vardefs=[("v", lo, None)], args=[(xn, ("var", "v"))], variables=[("v", j)])
     # a variable nested inside a list / object literal
     u = nullable(t)
     if u[0] == "list":
@@ -786,7 +809,7 @@ RAW_LITS = [("null",), ("int", 1), ("int", 0), ("int", U.MAX32), ("int", U.MIN32
 VAR_ENVS = [None, {}, {"v": None}, {"v": 3}, {"v": "A"}, {"v": [1, 2]}, {"v": {"a_py": 1}}, {"v": 3, "w": None}]
 
 
-def run_registry(ctx, reg, reg_id, types, per_type, depth, max_cases=2000, n_abstract=6):
+def run_registry(ctx, reg, reg_id, types, per_type, depth, max_cases=2000, n_abstract=6, n_trace=60):
     rng = ctx.rng
     specs, groups = build_cases(reg, types, rng, per_type, depth)
     # pipeline runs cost ~6 ms each (26 validation rules): keep every group of the small types, sample the rest
@@ -867,6 +890,8 @@ def run_registry(ctx, reg, reg_id, types, per_type, depth, max_cases=2000, n_abs
             ctx.sample({"type": ty_str(g["ty"]), "document": world.doc_text(g["cases"]["var"]), "variables": dict(g["cases"]["var"]["variables"]),
                         "resolver_kwargs": outcomes["var"][1], "literal_route_same": outcomes.get("lit") == outcomes["var"]})
     run_abstract(ctx, chk, world, reg, reg_id)
+    run_trace(ctx, chk, world, reg, reg_id, specs, n_trace)
+    run_allowed(ctx, world, reg, reg_id, specs, n_trace)
     if ctx.model_ok and items:
         answers = ask_model(ctx, reg, items)
         for it, ans, (g, route, d, spec) in zip(items, answers, metas):
@@ -877,6 +902,194 @@ def run_registry(ctx, reg, reg_id, types, per_type, depth, max_cases=2000, n_abs
                          "coerce_variable_values + coerce_argument_values: model and implementation differ",
                          {"reg": U.reg_to_jsonable(reg), "request": it, "impl": list(d), "model": list(mo), "document": world.doc_text(g["cases"][route]),
                           "variables": json.dumps(dict(g["cases"][route]["variables"]))}, kind="correspondence")
+
+
+def run_trace(ctx, chk, world, reg, reg_id, specs, n):
+    """Several aliased fields in ONE operation, some with arguments that fail at execution time (after validation and after
+    variable coercion), some fine, some requests whose variables fail: the resolver calls observed, in order and with their
+    kwargs, must be exactly the `call` events of the trace model (`executeOp`), a field with rejected arguments never runs
+    while its siblings still do, and a request with rejected variables runs nothing."""
+    from py_gql import graphql_blocking
+    from py_gql.exc import ValidationError
+    rng = ctx.rng
+    items, metas = [], []
+    cand = [i for i, sp in enumerate(specs) if len(sp) == 1]
+    if not cand:
+        return
+    for _ in range(n):
+        if ctx.out_of_time():
+            break
+        vardefs, variables, sels, parts, expect_reject = [], [], [], [], {}
+        for k in range(rng.randint(2, 3)):
+            si = rng.choice(cand)
+            a = specs[si][0]
+            t = a["type"]
+            key = "k%d" % k
+            good = [j for j in U.values_for(reg, t, rng, 2, False, 6) if j is not None and U.must_accept(reg, t, j) and not U.has_boundary(j)]
+            mode = rng.choice(["lit", "var", "var-null", "var-absent", "var-bad", "omit"])
+            if not good and mode in ("lit", "var", "var-null"):
+                mode = "omit"
+            vn = "v%d" % k
+            if mode == "lit":
+                args = [(a["name"], U.ast_of_json(reg, t, rng.choice(good)))]
+            elif mode == "var":
+                vardefs.append((vn, t, None)); variables.append((vn, rng.choice(good))); args = [(a["name"], ("var", vn))]
+            elif mode == "var-null":
+                # nullable variable WITH a default, bound to null: allowed by validation even at a non-null position
+                vardefs.append((vn, nullable(t), U.ast_of_json(reg, t, rng.choice(good)))); variables.append((vn, None))
+                args = [(a["name"], ("var", vn))]
+                if t[0] == "nonNull":
+                    expect_reject[key] = "null-for-nonnull"
+            elif mode == "var-absent":
+                vardefs.append((vn, nullable(t), None)); args = [(a["name"], ("var", vn))]
+                if t[0] == "nonNull" and a["default"] is None:
+                    continue          # validation refuses `$v: T` at `T!` without any default: nothing to observe
+            elif mode == "var-bad":
+                bad = [j for j in U.values_for(reg, t, rng, 2, True, 6) if j is not None and U.defects(reg, t, j)]
+                if not bad:
+                    continue
+                vardefs.append((vn, t, None)); variables.append((vn, rng.choice(bad))); args = [(a["name"], ("var", vn))]
+                expect_reject["*"] = "rejected-variables"
+            else:
+                args = []
+                if t[0] == "nonNull" and a["default"] is None:
+                    continue
+            sels.append({"key": key, "argdefs": spec_wire(specs[si]), "args": [[n_, U.lit_wire(l)] for n_, l in args]})
+            parts.append("%s: f%d%s" % (key, si, ("(" + ", ".join("%s: %s" % (n_, U.render_lit(l)) for n_, l in args) + ")") if args else ""))
+        if not parts:
+            continue
+        head = ("query(" + ", ".join("$%s: %s%s" % (n_, ty_str(t), "" if d is None else " = " + U.render_lit(d)) for n_, t, d in vardefs) + ") ") if vardefs else ""
+        doc = head + "{ " + " ".join(parts) + " }"
+        world.seen_calls[:] = []
+        try:
+            r = graphql_blocking(world.schema, doc, variables=dict(variables))
+            errs = list(r.errors or [])
+            crashed = None
+        except Exception as e:  # noqa
+            errs, crashed = [], type(e).__name__
+        calls = [[k_, U.pv_canon(U.pv_wire(kw))] for k_, kw in world.seen_calls]
+        ctx.count()
+        ctx.stat("trace:%s" % ("crash" if crashed else ("validation" if any(isinstance(e, ValidationError) for e in errs) else "executed")))
+        detail = {"reg": U.reg_to_jsonable(reg), "check": "trace", "document": doc, "variables": json.dumps(dict(variables)),
+                  "specs": {s_["key"]: s_["argdefs"] for s_ in sels}, "calls": calls, "errors": [str(e)[:120] for e in errs],
+                  "expect_reject": expect_reject}
+        # direct oracle: a selection whose arguments must be rejected never runs; rejected variables: nothing runs
+        for key, why in expect_reject.items():
+            ran = [c for c in calls if key == "*" or c[0] == key]
+            if ran:
+                ctx.fail("resolver-ran-on-rejected-arguments:%s" % why,
+                         "a resolver ran although %s" % ("the request's variables must be rejected" if key == "*" else "its own arguments must be rejected"),
+                         detail)
+        spec_of = {s_["key"]: s_["argdefs"] for s_ in sels}
+        for k_, kw in calls:
+            sp = [dict(a_, type=U.ty_from_json(a_["type"]), default=None if a_["default"] is None else [dict_from_wire(a_["default"]["v"])]) for a_ in spec_of[k_]]
+            rr = check_kwargs(reg, sp, kw)
+            if rr:
+                ctx.fail("nonconforming-argument:%s:trace" % rr, "resolver received a non-conforming argument (%s)" % rr, detail)
+        if crashed or any(isinstance(e, ValidationError) for e in errs):
+            continue
+        ctx.nontrivial(("trace", reg_id, doc, repr(variables)))
+        items.append({"op": "trace", "vardefs": [{"name": n_, "type": ty_json(t), "default": None if d is None else U.lit_wire(d)} for n_, t, d in vardefs],
+                      "variables": [[k_, U.jv_wire(v)] for k_, v in variables], "sels": sels})
+        metas.append((calls, errs, detail))
+    if ctx.model_ok and items:
+        for it, ans, (calls, errs, detail) in zip(items, ask_model(ctx, reg, items), metas):
+            evs = ans.get("events", [])
+            mcalls = [[e["call"], U.pv_from_model(e["kw"])] for e in evs if isinstance(e, dict) and "call" in e]
+            mfield = [e["fieldError"] for e in evs if isinstance(e, dict) and "fieldError" in e]
+            ipaths = [list(getattr(e, "path", None) or []) for e in errs]
+            ok = mcalls == calls and all([k_] in ipaths for k_ in mfield) and (("requestError" in evs) == (not calls and bool(errs) and not mfield and not any(ipaths)) or calls or mfield)
+            if not ok:
+                ctx.fail("corr:trace:impl-%dcalls-model-%dcalls" % (len(calls), len(mcalls)), "order of coercion and resolver calls: trace model and implementation differ",
+                         dict(detail, request=it, model_events=evs, impl_error_paths=ipaths), kind="correspondence")
+
+
+def run_allowed(ctx, world, reg, reg_id, specs, n):
+    """The validator's side of the bridge theorem: `Schema.is_subtype` and the verdict of VariablesInAllowedPosition on
+    `query($v: VT [= default]) { f(x: $v) }` against the model's `isSubtype` / `allowedUsage`."""
+    from py_gql.lang import parse
+    from py_gql.validation import validate_ast
+    rng = ctx.rng
+    items, impl, metas = [], [], []
+    cand = [i for i, sp in enumerate(specs) if len(sp) == 1]
+    for _ in range(n):
+        if not cand or ctx.out_of_time():
+            break
+        si = rng.choice(cand)
+        a = specs[si][0]
+        lt = a["type"]
+        base = U.ty_base(lt)
+        vt = rng.choice([lt, nullable(lt), NN(nullable(lt)), L(lt), nullable(lt)[1] if nullable(lt)[0] == "list" else lt,
+                         L(NN(N(base))), N(base), NN(N(base)), N(rng.choice(names_of(reg)))])
+        if vt[0] == "nonNull" and vt[1][0] == "nonNull":
+            continue
+        good = [j for j in U.values_for(reg, vt, rng, 1, False, 4) if j is not None and U.must_accept(reg, vt, j)]
+        dmode = rng.choice(["none", "null", "value"]) if (good and vt[0] != "nonNull") else "none"
+        dlit = None if dmode == "none" else (("null",) if dmode == "null" else U.ast_of_json(reg, vt, good[0]))
+        doc = "query($v: %s%s) { f%d(%s: $v) }" % (ty_str(vt), "" if dlit is None else " = " + U.render_lit(dlit), si, a["name"])
+        try:
+            res = validate_ast(world.schema, parse(doc))
+            verdict = not any("used in position expecting type" in str(e) for e in res.errors)
+            sub = bool(world.schema.is_subtype(world.ty_py(vt), world.ty_py(lt)))
+        except Exception as e:  # noqa
+            ctx.stat("allowed:internal:%s" % type(e).__name__)
+            continue
+        ctx.count()
+        ctx.stat("allowed:%s" % verdict)
+        items.append({"op": "allowed", "vt": ty_json(vt), "lt": ty_json(lt), "vdef": dmode == "value", "ldef": a["default"] is not None})
+        impl.append((sub, verdict))
+        metas.append(doc)
+    if ctx.model_ok and items:
+        for it, ans, im, doc in zip(items, ask_model(ctx, reg, items), impl, metas):
+            if (ans.get("sub"), ans.get("allowed")) != im:
+                ctx.fail("corr:allowed-usage:impl-%s-model-%s" % (im, (ans.get("sub"), ans.get("allowed"))),
+                         "is_subtype / VariablesInAllowedPosition: model and implementation differ",
+                         {"reg": U.reg_to_jsonable(reg), "document": doc, "request": it, "impl": list(im), "model": ans}, kind="correspondence")
+
+
+def run_collisions(ctx):
+    """Python names that collide (two input fields / two arguments with the same python_name): outside the statement's
+    premises (no dict can hold both), so NO property oracle here — only the correspondence: the model follows what the
+    code does (`coerced[python_name] = …`: later value, earlier position)."""
+    reg = {"types": [t for t in U.fixed_registry()["types"] if t["kind"] != "input"] + [
+        {"name": "C", "kind": "input", "fields": [
+            {"name": "a", "py": "k", "type": N("Int"), "default": None},
+            {"name": "b", "py": "k", "type": N("Int"), "default": [9]},
+            {"name": "c", "py": "k2", "type": N("String"), "default": ["d"]},
+            {"name": "d", "py": "k", "type": L(N("E")), "default": None}]}]}
+    specs = [[arg("x", N("Int"), None, "p"), arg("y", N("Int"), [5], "p")],
+             [arg("y", N("Int"), [5], "p"), arg("x", N("C"), None, "p"), arg("z", N("Boolean"), None, "q")]]
+    try:
+        world = World(reg, specs)
+    except Exception as e:  # noqa
+        ctx.notes.append("colliding python names are refused by the schema: %s" % type(e).__name__)
+        return
+    items, impl, what = [], [], []
+    vals = [{}, {"a": 1}, {"b": 2}, {"a": 1, "b": 2}, {"b": 2, "a": 1}, {"d": "A", "a": 3}, {"a": 1, "d": ["B"], "c": "x"}, {"a": "x", "b": 1}, None]
+    for j in vals:
+        items.append({"op": "coerce_value", "ty": ty_json(N("C")), "v": U.jv_wire(j)})
+        impl.append(world.coerce_value(N("C"), j)); what.append(("coerce_value", j))
+        lit = U.ast_of_json(reg, N("C"), j)
+        items.append({"op": "value_from_ast", "ty": ty_json(N("C")), "lit": U.lit_wire(lit), "vars": None})
+        impl.append(world.value_from_ast(N("C"), lit, None)); what.append(("value_from_ast", j))
+    cases = [(0, [("x", ("int", 1))]), (0, []), (0, [("x", ("int", 1)), ("y", ("int", 2))]), (0, [("y", ("int", 2)), ("x", ("int", 1))]),
+             (1, [("x", ("obj", [("a", ("int", 1))]))]), (1, [("z", ("bool", True)), ("x", ("obj", []))]), (1, [])]
+    for fi, args in cases:
+        case = {"field": fi, "vardefs": [], "args": args, "variables": []}
+        items.append(case_wire(case, specs[fi]))
+        impl.append(world.direct(case)); what.append(("exec", world.doc_text(case)))
+        out = world.pipeline(case)
+        if out[0] == "called" and impl[-1] != ("ok", out[1]):
+            ctx.fail("pipeline-vs-direct:collision", "kwargs seen by the resolver differ from coerce_argument_values called directly",
+                     {"reg": U.reg_to_jsonable(reg), "document": world.doc_text(case), "kwargs": out[1], "direct": list(impl[-1])})
+    ctx.count(len(items))
+    if ctx.model_ok:
+        for it, ans, im, w in zip(items, ask_model(ctx, reg, items), impl, what):
+            mo = model_outcome(ans)
+            ctx.stat("collision:%s" % im[0])
+            if not same_outcome(mo, im):
+                ctx.fail("corr:python-name-collision:%s" % w[0], "colliding python names: model and implementation differ",
+                         {"reg": U.reg_to_jsonable(reg), "request": it, "impl": list(im), "model": list(mo), "input": repr(w[1])}, kind="correspondence")
 
 
 def ty_depth(t):
@@ -1090,6 +1303,7 @@ def run(ctx):
     rng = ctx.rng
     # corpus first
     run_corpus(ctx)
+    run_collisions(ctx)
     # the hand-written registry: all type expressions up to 3 wrappers (quick: all <=2, a sample of depth 3)
     reg = U.fixed_registry()
     allt = U.all_types(names_of(reg), 3)
@@ -1101,7 +1315,7 @@ def run(ctx):
         types = allt
     ctx.extra["type_expressions_fixed_registry"] = len(types)
     run_registry(ctx, reg, "fixed", types, per_type=8 if quick else 14, depth=2 if quick else 3,
-                 max_cases=1700 if quick else 16000, n_abstract=5 if quick else 16)
+                 max_cases=1700 if quick else 16000, n_abstract=5 if quick else 16, n_trace=150 if quick else 1500)
     # seeded random registries
     n = ctx.n(2, 10)
     for i in range(n):
@@ -1112,7 +1326,7 @@ def run(ctx):
         at = U.all_types(names_of(r), 3)
         types = rng.sample(at, min(len(at), 30 if quick else 80))
         run_registry(ctx, r, "rnd%d" % i, types, per_type=6 if quick else 10, depth=2,
-                     max_cases=250 if quick else 1500, n_abstract=2 if quick else 6)
+                     max_cases=250 if quick else 1500, n_abstract=2 if quick else 6, n_trace=30 if quick else 200)
     ctx.extra["int_range_test_source"] = int_range_test()[2]
     ctx.extra["float_finiteness_guard_source"] = float_guard()[1] or ["<none>"]
 
@@ -1137,7 +1351,35 @@ def replay(ctx, data, record=False):
     reg = U.reg_from_jsonable(inp["reg"])
     before = sum(f["count"] for f in ctx.found if f["kind"] == "property")
     chk = Checker(ctx, reg, "replay")
-    if inp.get("check") == "abstract":
+    if inp.get("check") == "trace":
+        from py_gql import graphql_blocking
+        specs = [[dict(a, type=U.ty_from_json(a["type"]), default=None if a["default"] is None else [dict_from_wire(a["default"]["v"])]) for a in sp]
+                 for sp in inp["specs"].values()]
+        # rebuild the fields under their original numbers
+        import re as _re
+        nums = sorted({int(m) for m in _re.findall(r": f(\d+)", inp["document"])})
+        keyspec = {}
+        for m in _re.finditer(r"(k\d+): f(\d+)", inp["document"]):
+            keyspec[int(m.group(2))] = inp["specs"][m.group(1)]
+        allspecs = [[arg("x", N("Int"))] for _ in range((max(nums) + 1) if nums else 1)]
+        for num, sp in keyspec.items():
+            allspecs[num] = [dict(a, type=U.ty_from_json(a["type"]), default=None if a["default"] is None else [dict_from_wire(a["default"]["v"])]) for a in sp]
+        world = World(reg, allspecs)
+        world.seen_calls[:] = []
+        try:
+            graphql_blocking(world.schema, inp["document"], variables=json.loads(inp["variables"]))
+        except Exception:  # noqa
+            pass
+        calls = [[k_, U.pv_canon(U.pv_wire(kw))] for k_, kw in world.seen_calls]
+        for key in inp.get("expect_reject", {}):
+            if [c for c in calls if key == "*" or c[0] == key]:
+                return False
+        for k_, kw in calls:
+            sp = [dict(a_, type=U.ty_from_json(a_["type"]), default=None if a_["default"] is None else [dict_from_wire(a_["default"]["v"])]) for a_ in inp["specs"][k_]]
+            if check_kwargs(reg, sp, kw):
+                return False
+        return True
+    elif inp.get("check") == "abstract":
         def unspec(sp):
             return [dict(a, type=U.ty_from_json(a["type"]), default=None if a["default"] is None else [dict_from_wire(a["default"]["v"])]) for a in sp]
         triple = tuple(unspec(x) for x in inp["abstract"])
